@@ -7,7 +7,7 @@ ID = "C10"
 PROPS = "C10"
 RULE = ("pipelines of 1..4 requests whose k-th element is malformed/unsupported, every class (request line with <3 fields, "
         "unrecognised version token, header line without colon, non-ASCII byte in the request line or a header, unsupported "
-        "Expect value, HTTP/2.0 and HTTP/3.0) x every position k, others well-formed with tagged answers; plus followers after the "
+        "Expect value, HTTP/2.0 and HTTP/3.0 without and with a body: Content-Length 5..3000 or chunked) x every position k, others well-formed with tagged answers; plus followers after the "
         "offending request; non-trivial = all of them; distinct = distinct case lines")
 ASSUMPTIONS = ["the client half-closes after sending, so 'never hang' is observable as end-of-stream within the time limit",
                "bulk runs use Unix sockets (no RST-after-unread-data effects); a TCP sample runs too"]
@@ -35,11 +35,20 @@ def offending(cls, v, tag):
         return b"POST " + t + b" HTTP/1.1\r\nExpect: " + v + b"\r\nContent-Length: 3\r\n\r\nabc"
     if cls == "version":
         return b"GET " + t + b" " + v + b"\r\nHost: h\r\n\r\n"
+    if cls == "version-body":
+        # the refused request carries a body: it belongs to that request and must not be read as the next head
+        ver, kind = v.split(b"|")
+        if kind == b"chunked":
+            return b"POST " + t + b" " + ver + b"\r\nHost: h\r\nTransfer-Encoding: chunked\r\n\r\n5\r\nhello\r\n3\r\nGET\r\n0\r\n\r\n"
+        n = int(kind[2:])
+        body = (b"GET /smuggled HTTP/1.1\r\nHost: h\r\n\r\n" * (n // 30 + 2))[:n]
+        return b"POST " + t + b" " + ver + b"\r\nHost: h\r\nContent-Length: %d\r\n\r\n" % n + body
     raise ValueError(cls)
 
 
 CLASSES = [("line", BAD_LINE, 400), ("nocolon", NO_COLON, 400), ("nonascii-line", NON_ASCII_LINE, None),
-           ("nonascii-hdr", NON_ASCII_HDR, None), ("expect", BAD_EXPECT, 417), ("version", HIGH_VER, 505)]
+           ("nonascii-hdr", NON_ASCII_HDR, None), ("expect", BAD_EXPECT, 417), ("version", HIGH_VER, 505),
+           ("version-body", [b"HTTP/2.0|cl5", b"HTTP/2.0|cl37", b"HTTP/3.0|cl1024", b"HTTP/2.0|cl1025", b"HTTP/3.0|cl3000", b"HTTP/2.0|chunked"], 505)]
 
 
 def good(tag, rng, small=True):
@@ -63,7 +72,7 @@ def build(rng, n, k, cls, v, status, transport="u", delay=None, eof=True):
             if status is not None:
                 ws.append(str(status))
                 wrb.append("~")
-            if cls != "version":
+            if not cls.startswith("version"):
                 # whatever follows must not be interpreted
                 stream += good("after", rng).render()
                 break
@@ -79,7 +88,7 @@ def build(rng, n, k, cls, v, status, transport="u", delay=None, eof=True):
         acts = [action_str([], respond_str(200, b"never", True))]
     # a client that keeps its sending side open must still get the definitive outcome promptly: the
     # connection stays open only after a 505 that was the last thing sent
-    we = "closed" if (eof or cls != "version") else "open"
+    we = "closed" if (eof or not cls.startswith("version")) else "open"
     extra = "wu=%s ws=%s wrb=%s we=%s cls=%s" % (j(wu), j(ws), j(wrb), we, cls)
     return (cv_line(stream, acts, transport=transport, eof=eof, extra=extra + ("" if eof else " limit=2500")),
             {"class": cls, "position": k, "n": n, "client_half_closes": eof})
